@@ -78,6 +78,7 @@ type c46Req struct {
 	am     string
 	alerts []int // alert numbers, in payload order
 	drain  bool  // issued while the Alertmanager's loop was being stopped (i.e. by stop()'s drain)
+	gen    int   // which send loop of this Alertmanager URL issued it (1 = first)
 	reply  chan bool
 }
 
@@ -91,6 +92,7 @@ type c46AM struct {
 	okN, failN, lostN int
 	maxReceived       int // highest alert number received so far
 	maxReceivedDrain  bool // ... and whether it arrived in a request issued by stop()'s drain
+	maxReceivedGen    int  // ... and the send loop generation that issued that request
 	received          []int
 	offered           map[int]bool // every alert ever offered to a loop of this Alertmanager
 	requested         map[int]bool // every alert that appeared in a request
@@ -236,7 +238,18 @@ func c46NewWorld(r *vx.Run, name string) *c46World {
 		w.runDone = true
 		w.mu.Unlock()
 	}()
+	// initial state: Alertmanager am1 discovered (saves one event of depth in every history)
+	w.mdl.setAMs("1")
+	w.tsets <- c46TargetSet("1")
 	return w
+}
+
+func c46TargetSet(set string) map[string][]*targetgroup.Group {
+	tg := &targetgroup.Group{Source: "sd"}
+	for _, c := range set {
+		tg.Targets = append(tg.Targets, model.LabelSet{model.AddressLabel: model.LabelValue(fmt.Sprintf("am%c:9093", c))})
+	}
+	return map[string][]*targetgroup.Group{"config-0": {tg}}
 }
 
 // do is Options.Do: the request stays in flight until an ok/fail event answers it.
@@ -278,7 +291,7 @@ func (w *c46World) arrive(rq *c46Req) {
 		w.fails = append(w.fails, vx.Failf("request-to-unknown-alertmanager", "request to %q", rq.am))
 		return
 	}
-	rq.drain = a.draining
+	rq.drain, rq.gen = a.draining, a.gens
 	if len(a.pending) > 0 {
 		w.sawOverlap = true
 	}
@@ -330,17 +343,24 @@ func (w *c46World) answer(rq *c46Req, ok bool) {
 		if x <= a.maxReceived {
 			// the received sequence is no longer an in-order subsequence of the sent alerts
 			f := vx.Failf("received-out-of-order", "am%s received %v and now %v: not in the order the alerts were sent (history %v)", rq.am, a.received, rq.alerts, w.hist)
-			if w.plan.Drain && !rq.drain && a.maxReceivedDrain {
-				// narrow class: this request was issued by the send loop and was still in flight
-				// when stop() began draining the queue from its caller; a drained (newer) batch was
-				// processed by the Alertmanager first.
+			switch {
+			case rq.gen < a.maxReceivedGen:
+				// narrow class 1: the Alertmanager left the set while its send loop had a request in
+				// flight, came back (new send loop), and a request of the NEW loop was processed
+				// before the old loop's request.
+				f.Signature = "readded-alertmanager-request-overtakes-inflight-request-of-stopped-loop"
+				w.soft = append(w.soft, f)
+			case w.plan.Drain && rq.gen == a.maxReceivedGen && !rq.drain && a.maxReceivedDrain:
+				// narrow class 2: this request was issued by the send loop and was still in flight
+				// when stop() began draining the queue from its caller; a drained (newer) batch of
+				// the same loop was processed by the Alertmanager first.
 				f.Signature = "drain-request-overtakes-inflight-loop-request"
 				w.soft = append(w.soft, f)
-			} else {
+			default:
 				w.fails = append(w.fails, f)
 			}
 		} else {
-			a.maxReceived, a.maxReceivedDrain = x, rq.drain
+			a.maxReceived, a.maxReceivedDrain, a.maxReceivedGen = x, rq.drain, rq.gen
 		}
 		a.received = append(a.received, x)
 	}
@@ -437,11 +457,7 @@ func (w *c46World) Apply(op string) {
 		}
 		w.mdl.setAMs(set)
 		w.mu.Unlock()
-		tg := &targetgroup.Group{Source: "sd"}
-		for _, c := range set {
-			tg.Targets = append(tg.Targets, model.LabelSet{model.AddressLabel: model.LabelValue(fmt.Sprintf("am%c:9093", c))})
-		}
-		w.tsets <- map[string][]*targetgroup.Group{"config-0": {tg}}
+		w.tsets <- c46TargetSet(set)
 	case "cfg":
 		i := 0
 		if w.mdl.cfgOther != (f[1] == "other") {
@@ -574,9 +590,9 @@ func (w *c46World) stateString(canon bool, impl map[string][]int) string {
 		a := w.mdl.ams[name]
 		var ps []string
 		for _, p := range a.pending {
-			ps = append(ps, fmt.Sprintf("%v/drain=%v", renl(p.alerts), p.drain))
+			ps = append(ps, fmt.Sprintf("%v/drain=%v/old=%v", renl(p.alerts), p.drain, p.gen < a.gens))
 		}
-		fmt.Fprintf(&sb, "am%s{live=%v draining=%v gens=%d queue=%v pending=%v maxrecv=%d/%v", name, a.live, a.draining, min(a.gens, 2), renl(a.queue), ps, ren(a.maxReceived), a.maxReceivedDrain)
+		fmt.Fprintf(&sb, "am%s{live=%v draining=%v gens=%d queue=%v pending=%v maxrecv=%d/%v/old=%v", name, a.live, a.draining, min(a.gens, 2), renl(a.queue), ps, ren(a.maxReceived), a.maxReceivedDrain, a.maxReceivedGen < a.gens)
 		if !canon {
 			fmt.Fprintf(&sb, " ok=%d fail=%d lost=%d received=%v", a.okN, a.failN, a.lostN, a.received)
 		}
@@ -709,7 +725,20 @@ func (w *c46World) Close() {
 		}
 		if len(ps) == 0 {
 			if done {
-				return
+				// Send loops that Run's shutdown did not stop (only possible when the code under test
+				// lost track of them, which the oracle has reported as send-loop-set-differs) would
+				// keep the bubble alive: stop the reachable ones so that the verdict can be delivered.
+				left := false
+				for _, ams := range w.m.alertmanagers {
+					for u, sl := range ams.sendLoops {
+						left = true
+						delete(ams.sendLoops, u)
+						go sl.stop()
+					}
+				}
+				if !left {
+					return
+				}
 			}
 			w.m.Stop()
 		}
@@ -735,7 +764,7 @@ func (s *c46Sabotaged) Apply(op string) {
 
 func c46SelfTest(t *testing.T, r *vx.Run, eng *evloop.Engine) {
 	// a fixed history with overflow, failure, two Alertmanagers; the oracle must accept it ...
-	ops := []string{"sd/12", "send/1", "send/3", "ok/1/0", "fail/2/0", "send/d", "ok/1/0"}
+	ops := []string{"sd/12", "send/1", "send/3", "ok/1/0", "fail/2/0", "send/d", "ok/1/0"} // (am1 is already in the set initially)
 	if f := eng.Replay(func() evloop.World { return c46NewWorld(nil, "q2b1-nodrain") }, ops); f != nil {
 		r.Violation(f.Signature, f.Message, map[string]any{"config": "q2b1-nodrain", "ops": ops})
 		return
@@ -775,8 +804,8 @@ func TestVerifC46(t *testing.T) {
 		depth int
 	}
 	plans := vx.Pick(r,
-		[]plan{{"q2b1-drain", 5}, {"q2b1-nodrain", 5}},
-		[]plan{{"q2b1-drain", 7}, {"q2b1-nodrain", 7}, {"q3b2-drain", 6}, {"q3b2-nodrain", 6}, {"q1b1-drain", 6}})
+		[]plan{{"q2b1-drain", 6}, {"q2b1-nodrain", 6}},
+		[]plan{{"q2b1-drain", 9}, {"q2b1-nodrain", 8}, {"q3b2-drain", 7}, {"q3b2-nodrain", 7}, {"q1b1-drain", 7}})
 	if v := os.Getenv("VERIF_C46_PLAN"); v != "" { // experiments only, e.g. "q2b1-drain:6"
 		plans = nil
 		for _, p := range strings.Split(v, ",") {
